@@ -12,6 +12,7 @@ import (
 	"golang.org/x/net/http2/hpack"
 	"pgregory.net/rapid"
 
+	"verifharness/ref/framegen"
 	fr "verifharness/ref/frameref"
 	"verifharness/vstat"
 )
@@ -278,61 +279,6 @@ type ReadScript struct {
 
 var colRead = vstat.New("C19", "c19.read")
 
-func genFrameBytes(t *rapid.T) []byte {
-	typ := byte(rapid.IntRange(0, 11).Draw(t, "type"))
-	if typ > 9 {
-		typ = byte(rapid.SampledFrom([]int{10, 11, 0x20, 0xff}).Draw(t, "utype"))
-	}
-	flags := rapid.SampledFrom([]byte{0, 1, 4, 5, 8, 0x20, 0x28, 0x2c, 0x0d, 0xff}).Draw(t, "flags")
-	stream := rapid.SampledFrom([]uint32{0, 1, 1, 3, 5, 2, 0x7fffffff, 0x80000001, 0x80000000}).Draw(t, "stream")
-	var p []byte
-	fixed := map[byte]int{2: 5, 3: 4, 6: 8, 8: 4}
-	switch rapid.IntRange(0, 5).Draw(t, "lenk") {
-	case 0:
-		p = nil
-	case 1:
-		if n, ok := fixed[typ]; ok {
-			p = rapid.SliceOfN(rapid.Byte(), n, n).Draw(t, "fixed")
-		} else if typ == 4 {
-			n := 6 * rapid.IntRange(0, 4).Draw(t, "ns")
-			p = rapid.SliceOfN(rapid.Byte(), n, n).Draw(t, "settings")
-			for i := 0; i+6 <= len(p); i += 6 { // mostly known ids
-				p[i], p[i+1] = 0, byte(rapid.IntRange(1, 7).Draw(t, "sid"))
-			}
-		} else if typ == 7 {
-			p = rapid.SliceOfN(rapid.Byte(), 8, 20).Draw(t, "goaway")
-		} else {
-			p = rapid.SliceOfN(rapid.Byte(), 1, 30).Draw(t, "body")
-		}
-	case 2:
-		if n, ok := fixed[typ]; ok {
-			d := rapid.SampledFrom([]int{-1, 1, -n}).Draw(t, "off")
-			p = rapid.SliceOfN(rapid.Byte(), max(0, n+d), max(0, n+d)).Draw(t, "offfixed")
-		} else {
-			p = rapid.SliceOfN(rapid.Byte(), 0, 7).Draw(t, "short")
-		}
-	case 3: // padded / priority carrying payload built on purpose
-		pad := rapid.IntRange(0, 12).Draw(t, "pad")
-		body := rapid.SliceOfN(rapid.Byte(), 0, 10).Draw(t, "pbody")
-		p = append([]byte{byte(pad)}, body...)
-		if rapid.Bool().Draw(t, "padok") {
-			p = append(p, make([]byte, pad)...)
-		}
-	case 4: // zero increment / zero values, reserved bits: 32-bit words from a boundary set
-		words := rapid.SampledFrom([]int{1, 2}).Draw(t, "nwords")
-		for i := 0; i < words; i++ {
-			w := rapid.SampledFrom([]uint32{0, 0, 0x80000000, 0x80000001, 1, 0x7fffffff, 0xffffffff}).Draw(t, "word")
-			p = append(p, byte(w>>24), byte(w>>16), byte(w>>8), byte(w))
-		}
-		if rapid.IntRange(0, 3).Draw(t, "extra") == 0 {
-			p = append(p, rapid.Byte().Draw(t, "xb"))
-		}
-	default:
-		p = rapid.SliceOfN(rapid.Byte(), 0, 40).Draw(t, "any")
-	}
-	return fr.Raw(typ, flags, stream, p)
-}
-
 func genReadScript(t *rapid.T) ReadScript {
 	var s ReadScript
 	n := rapid.IntRange(1, 5).Draw(t, "nframes")
@@ -355,7 +301,7 @@ func genReadScript(t *rapid.T) ReadScript {
 			l := rapid.SampledFrom([]int{16384, 16385, 20000}).Draw(t, "big")
 			s.Stream = append(s.Stream, fr.Raw(0, 0, 1, make([]byte, l))...)
 		default:
-			s.Stream = append(s.Stream, genFrameBytes(t)...)
+			s.Stream = append(s.Stream, framegen.Frame(t)...)
 		}
 	}
 	if rapid.IntRange(0, 5).Draw(t, "trunc") == 0 && len(s.Stream) > 0 {
